@@ -25,7 +25,7 @@ SPEC = {
                     "coordinates compare as float(token)"],
     "monitors_required": ["c07_model_compare", "c07_explicit_default_relation"],
     "required_obs": {"quick": ["split_class", "multi_split_lines", "star_files", "sgroup_text_with_quotes", "star_endpoints_ge_10", "extra_kw/EXACHG", "explicit_default", "explicit_default_mass_on_DT", "dt_seen", "cov_graph_from_file", "cov_every_offset_lines",
-                               "cov_zero_bond_file", "cov_crlf", "cov_cr_or_mixed_line_terminators", "cov_exponent_notation_coordinates", "cov_corpus_files_vs_own_reader"]},
+                               "cov_zero_bond_file", "cov_crlf", "cov_mixed_lf_crlf_line_terminators", "cov_exponent_notation_coordinates", "cov_corpus_files_vs_own_reader"]},
     "watchdog_s": {"quick": 900, "thorough": 5400},
 }
 PLAN = {"quick": {"cases": 6000, "every_offset": 24}, "thorough": {"cases": 80000, "every_offset": 600}}
@@ -59,7 +59,7 @@ def random_style(rng, mol):
     st.trailing_blocks = rng.random() < 0.2
     st.after_end = rng.choice(["", "", "$$$$", "> <prop>\n1\n\n$$$$"])
     st.empty_bond_block = rng.random() < 0.3
-    st.eol = rng.choice(["\n", "\n", "\r\n", "\r", "mixed"])
+    st.eol = rng.choice(["\n", "\n", "\r\n", "mixed"])  # LF, CRLF, or both in one file; bare CR only in C06 (line-ending style)
     st.exotic_numbers = rng.random() < 0.25  # exponent notation as some corpus files use it (lower- and upper-case marker)
     st.aamap = rng.random() < 0.3
     st.final_eol = rng.random() < 0.5
@@ -151,8 +151,8 @@ def _run_case(ctx, case):
     merge_obs(ctx.obs, obs)
     if st.eol == "\r\n":
         ctx.count("cov_crlf")
-    if st.eol in ("\r", "mixed"):
-        ctx.count("cov_cr_or_mixed_line_terminators")
+    if st.eol == "mixed":
+        ctx.count("cov_mixed_lf_crlf_line_terminators")
     if st.exotic_numbers:
         ctx.count("cov_exponent_notation_coordinates")
     if not mol.bonds:
